@@ -119,13 +119,21 @@ pub fn run(rep: &mut Report) {
             "dup".into(),
             "dup".into(),
             "a//b/double".into(),
+            // backslashes are ordinary characters on Unix: one component for the zip crate, but a
+            // later separator clean-up must not turn them into `..` segments
+            "..\\..\\bs_up2".into(),
+            "a\\..\\..\\bs_sneaky".into(),
+            "\\bs_abs".into(),
+            // the same file as `shared/x` of the directory input, spelled with a `.` segment
+            "shared/./x".into(),
+            "shared/x".into(),
         ];
         let mut entries = vec![];
         let mut stems = vec![];
         let mut hostile = false;
         for _ in 0..rng.range(1, 5) {
             let stem = rng.pick(&pool).clone();
-            if stem.contains("..") || stem.starts_with('/') {
+            if stem.contains("..") || stem.starts_with('/') || stem.contains('\\') || stem.contains("/./") {
                 hostile = true;
             }
             match rng.below(3) {
@@ -153,6 +161,12 @@ pub fn run(rep: &mut Report) {
             };
             reqs.push(format!("confine.enclosed {}", comps(&format!("{}.x", s))));
             expect.push((s.clone(), enclosed_impl));
+            // std::path's own classification of the components (what the producer's test uses)
+            let plain_std = std::path::Path::new(&format!("{}.x", s))
+                .components()
+                .all(|c| matches!(c, std::path::Component::Normal(_)));
+            reqs.push(format!("confine.plain {}", comps(&format!("{}.x", s))));
+            expect.push((s.clone(), plain_std));
         }
         // an .info file recording hostile source paths, and a directory input containing symlinks
         std::fs::write(
@@ -164,6 +178,9 @@ pub fn run(rep: &mut Report) {
         )
         .unwrap();
         std::fs::create_dir_all(case_dir.join("in/dirinput/sub")).unwrap();
+        std::fs::create_dir_all(case_dir.join("in/dirinput/shared")).unwrap();
+        std::fs::write(case_dir.join("in/dirinput/shared/x.profraw"), b"input profile that must stay as it is").unwrap();
+        std::fs::write(case_dir.join("in/dirinput/shared/x.gcda"), &gcda).unwrap();
         std::fs::write(case_dir.join("in/dirinput/sub/x.info"), "TN:\nSF:src/ok.c\nDA:3,1\nend_of_record\n").unwrap();
         std::fs::write(case_dir.join("bait/target.info"), "TN:\nSF:t.c\nDA:1,1\nend_of_record\n").unwrap();
         let _ = std::os::unix::fs::symlink(bait.join("target.info"), case_dir.join("in/dirinput/link.info"));
